@@ -173,8 +173,88 @@ def renderOO : Option Obs → String
 def opTag : Op → String
   | .lit _ => "lit" | .set _ _ => "set" | .del _ => "del" | .app _ => "merge" | .rest => "rest" | .range _ _ => "range"
 
+/-! ### mode I: source-level operations and observations (harness/cmd/harness/mapops_iter.go) -/
+
+/-- an operation of mode I: one of the basic ones, or a slice with bounds as written in the source
+(negative = from the end, missing upper bound = to the end) -/
+inductive XOp where
+  | base (op : Op)
+  | slice (lo : Int) (hi : Option Int)
+
+def parseXOp (s : String) : Option XOp :=
+  match s.toList with
+  | 'N' :: r =>
+    match (String.ofList r).splitOn ":" with
+    | [a, b] => do
+      let lo ← a.toInt?
+      let hi ← if b.isEmpty then some none else b.toInt?.map some
+      pure (.slice lo hi)
+    | _ => none
+  | 'T' :: r => (parseOp (String.ofList ('S' :: r))).map .base     -- m.k = v is m["k"] = v
+  | 'E' :: r => (parseOp (String.ofList ('D' :: r))).map .base     -- del(m.k) is del(m["k"])
+  | _ => (parseOp s).map .base
+
+/-- `evalIndexRangeExpression` on a container of `num` elements: the bounds handed to `object.Range`, or `none` (error) -/
+def resolveSlice (num : Nat) (lo : Int) (hi : Option Int) : Option (Nat × Nat) :=
+  let l := if lo < 0 then (num : Int) + lo else lo
+  let l := if l < 0 then 0 else l
+  let r := match hi with
+    | none => (num : Int)
+    | some h => if h < 0 then (num : Int) + h else h
+  if l > r then none else
+  some ((min l num).toNat, (min r num).toNat)
+
+/-- the result of a history: `none` = an operation returned an error, `some none` = the variable is nil -/
+def runX (step : Option α → Op → Option α) (len : α → Nat) : Option α → List XOp → Option (Option α)
+  | m, [] => some m
+  | m, .base op :: rest =>
+    match m, op with
+    | none, .lit _ => runX step len (step m op) rest
+    | none, _ => some none            -- the harness stops at the first nil
+    | some _, _ => runX step len (step m op) rest
+  | m, .slice lo hi :: rest =>
+    match m with
+    | none => some none
+    | some mm =>
+      match resolveSlice (len mm) lo hi with
+      | none => none
+      | some (l, r) => runX step len (step m (.range l r)) rest
+
+def pairsArr (l : List (Obj × Obj)) : Obj := .arr (l.map fun (k, v) => .arr [k, v])
+
+def freshKey : Obj := .str [122, 122, 57]   -- "zz9"
+
+/-- mode I's observation as a function of the pairs in iteration order -/
+def iterObs (c : Obj → Obj → Int) (idKeys : List Obj) (l : List (Obj × Obj)) (lookup : Obj → Option Obj) : String :=
+  let _ := c
+  let nPert := if l.isEmpty then 1 else 3
+  s!"ks={Value.render (.arr (l.map (·.1)))};it={Value.render (pairsArr l)};fr={Value.render (pairsArr l)};dg=" ++
+  "/".intercalate (idKeys.map fun k => lookupStr (lookup k)) ++ ";ne=" ++ String.join (List.replicate nPert "001")
+
+def runCaseI (keys ops obs : String) : CaseResult :=
+  match (if keys = "" then some [] else (splitOn keys ';').mapM Value.ofString),
+        (if ops = "" then some [] else (splitOn ops ';').mapM parseXOp) with
+  | some keys, some ops =>
+    let mm := runX (Map.step cmpD maxSmallMap) (fun (m : GM) => m.len) none ops
+    let sm := runX (Map.Spec.step cmpD) (fun (l : List (Obj × Obj)) => l.length) none ops
+    let render {α} (r : Option (Option α)) (f : α → String) : String :=
+      match r with | none => "E" | some none => "n" | some (some x) => f x
+    let mo := render mm fun m => iterObs cmpD keys m.kvs (get cmpD m)
+    let so := render sm fun l => iterObs cmpD keys l (fun k => Spec.lookup cmpD k l)
+    let dataOk := ops.all (fun o => match o with | .base op => keysData op | _ => true) && keys.all isData
+    let last := match ops.getLast? with
+      | some (.base op) => opTag op
+      | some (.slice lo hi) => if lo < 0 || (match hi with | some h => h < 0 | none => false) then "slice-neg" else if hi.isNone then "slice-open" else "slice"
+      | none => "none"
+    { model := mo, agree := mo == obs, stmtModel := mo == so, stmtImpl := obs == so,
+      tags := ["mode:I", "I-last:" ++ last,
+               match mm with | none => "I-error" | some none => "I-null" | some (some m) => "I-" ++ (if m.isBig then "big" else "small") ++ ":" ++ toString (min m.len 6)],
+      nontrivial := !ops.isEmpty, unmodelled := !dataOk }
+  | _, _ => CaseResult.badLine
+
 def runCase (inp obs : String) : CaseResult :=
   match splitOn inp '|' with
+  | ["I", keys, ops] => runCaseI keys ops obs
   | ["K", _, _] =>
     -- the constant the model is instantiated with must be the code's MaxSmallMap
     let m := toString maxSmallMap
